@@ -5,31 +5,12 @@ import Kingdon.Lemmas.SourceSigns
 namespace Kingdon.SrcEq
 open Kingdon
 
-theorem hexChar_14 : hexChar 14 = 'e' := by decide
-
-theorem pyName_eq_map (n : List Nat) : pyName n = (14 :: n).map hexChar := rfl
-
-theorem phase2_cons (e : Nat) : ∀ (t b : List Nat) (i sw : Nat), e ∉ t →
-    phase2 (e :: b) t (i + 1) sw = (e :: (phase2 b t i sw).1, (phase2 b t i sw).2) := by
-  intro t
-  induction t with
-  | nil => intro b i sw _; rfl
-  | cons c t ih =>
-    intro b i sw he
-    have hce : ¬ e = c := fun h => he (by simp [h])
-    have het : e ∉ t := fun h => he (by simp [h])
-    have hidx : (e :: b).idxOf c = b.idxOf c + 1 := by
-      have : (e == c) = false := by simpa using hce
-      rw [List.idxOf_cons, this]; rfl
-    simp only [phase2]
-    rw [hidx, List.eraseIdx_cons_succ, List.insertIdx_succ_cons, ih _ _ _ het]
-    have : b.idxOf c + 1 - (i + 1) = b.idxOf c - i := by omega
-    rw [this]
-
-theorem swapBlades_cons (e : Nat) (sp t : List Nat) (he : e ∉ t) :
-    (swapBlades (e :: sp) [] (e :: t)).1 = (swapBlades sp [] t).1 := by
-  simp only [swapBlades, phase1, phase2, List.idxOf_cons_self, List.eraseIdx_cons_zero, List.insertIdx_zero]
-  rw [phase2_cons e t sp 0 _ he]
+/-- every generator label of an admissible configuration is a single hex digit (a fact `admissible` checks that is not in `Adm`) -/
+theorem vecs16_of_admissible (c : Cfg) (h : c.admissible = true) : ∀ v ∈ c.vecs, v < 16 := by
+  unfold Cfg.admissible at h
+  simp only [Bool.and_eq_true, List.all_eq_true, decide_eq_true_eq] at h
+  intro v hv
+  exact (h.1.1.1.1.1.2 v hv).2
 
 theorem map_hexChar_inj : ∀ (a b : List Nat), (∀ x ∈ a, x < 16) → (∀ x ∈ b, x < 16) →
     a.map hexChar = b.map hexChar → a = b := by
@@ -194,7 +175,7 @@ theorem blade2canon_unfold (alg : Src.Alg) (bb : List Char) :
         match Py.dictGet? alg.bin2canon bin with
         | some cb =>
           if Py.truthy cb = true then
-            Src.swap_blades bb [] cb >>= fun r => pure (cb, r.1)
+            Src.swap_blades (Py.sliceFrom bb 1) [] (Py.sliceFrom cb 1) >>= fun r => pure (cb, r.1)
           else pure (bb, (0 : Int))
         | none => pure (bb, (0 : Int)) := by
   unfold Src.blade2canon
@@ -207,44 +188,33 @@ theorem blade2canon_unfold (alg : Src.Alg) (bb : List Char) :
     | none => rfl
     | some cb => rfl
 
-/-- the translated `_swap_blades` on the python strings with their leading `'e'` -/
-theorem swap_blades_pyName (sp canon : List Nat) (hsp : ∀ l ∈ sp, l < 14) (hc : ∀ l ∈ canon, l < 14)
+/-- the translated `_swap_blades` on the python strings without their leading `'e'` (as `_blade2canon` calls it) -/
+theorem swap_blades_pyName (sp canon : List Nat) (hsp : ∀ l ∈ sp, l < 16) (hc : ∀ l ∈ canon, l < 16)
     (hnd : canon.Nodup) (hmem : ∀ x ∈ canon, x ∈ sp) :
-    Src.swap_blades (pyName sp) [] (pyName canon) >>= (fun r => pure (pyName canon, r.1)) =
+    Src.swap_blades (Py.sliceFrom (pyName sp) 1) [] (Py.sliceFrom (pyName canon) 1) >>=
+        (fun r => pure (pyName canon, r.1)) =
       (.ok (pyName canon, Int.ofNat (swapBlades sp [] canon).1) : Py.M (List Char × Int)) := by
-  have h14 : 14 ∉ canon := fun hm => by have := hc 14 hm; omega
-  rw [pyName_eq_map, pyName_eq_map]
-  have := swap_blades_hex (14 :: sp) [] (14 :: canon)
-    (by intro x hx; rcases List.mem_cons.mp hx with e | e
-        · omega
-        · have := hsp x e; omega)
-    (by simp)
-    (by intro x hx; rcases List.mem_cons.mp hx with e | e
-        · omega
-        · have := hc x e; omega)
-    (List.nodup_cons.mpr ⟨h14, hnd⟩)
+  rw [sliceFrom_pyName, sliceFrom_pyName]
+  have := swap_blades_hex sp [] canon hsp (by simp) hc hnd
     (by intro x hx
         simp only [phase1]
-        rcases List.mem_cons.mp hx with e | e
-        · simp [e]
-        · simp [hmem x e])
+        exact hmem x hx)
   rw [List.map_nil] at this
-  rw [this, swapBlades_cons 14 sp canon h14]
+  rw [this]
   rfl
 
-/-- **`_blade2canon` is `Cfg.blade2canon`**: for every admissible configuration with one-digit labels below 14 (so that no
-    label is spelled with the letter `e` of the prefix) and every spelling over one-digit labels — canonical, permuted,
-    with repeated or foreign letters — the translated python returns the model's canonical name and swap count, and the
-    requested spelling itself (which is then not a key of `canon2bin`) with 0 swaps exactly where the model returns `none`;
-    it never raises. -/
-theorem blade2canon_eq (c : Cfg) (h : Cfg.Adm c) (h14 : ∀ v ∈ c.vecs, v < 14) (sp : List Nat) (hsp : ∀ l ∈ sp, l < 14) :
+/-- **`_blade2canon` is `Cfg.blade2canon`**: for every admissible configuration whose labels are single hex digits (which
+    `admissible` checks: `vecs16_of_admissible`) and every spelling over single hex digits — canonical, permuted,
+    with repeated or foreign letters, also with the labels 14 = `e` and 15 = `f` — the translated python returns the model's
+    canonical name and swap count, and the requested spelling itself (which is then not a key of `canon2bin`) with 0 swaps
+    exactly where the model returns `none`; it never raises. -/
+theorem blade2canon_eq (c : Cfg) (h : Cfg.Adm c) (h16 : ∀ v ∈ c.vecs, v < 16) (sp : List Nat) (hsp : ∀ l ∈ sp, l < 16) :
     Src.blade2canon (algOf c) (pyName sp) =
       match c.blade2canon sp with
       | some (canon, swaps) => .ok (pyName canon, Int.ofNat swaps)
       | none => .ok (pyName sp, 0) := by
-  have hb14 : ∀ n ∈ c.basis, ∀ l ∈ n, l < 14 := fun n hn l hl => h14 l (h.names_letters n hn l hl)
-  have hb16 : ∀ n ∈ c.basis, ∀ l ∈ n, l < 16 := fun n hn l hl => by have := hb14 n hn l hl; omega
-  have hs16 : ∀ l ∈ sp, l < 16 := fun l hl => by have := hsp l hl; omega
+  have hb16 : ∀ n ∈ c.basis, ∀ l ∈ n, l < 16 := fun n hn l hl => h16 l (h.names_letters n hn l hl)
+  have hs16 : ∀ l ∈ sp, l < 16 := hsp
   rw [blade2canon_unfold, dictHas_canon2bin c hb16 sp hs16]
   unfold Cfg.blade2canon
   by_cases hc : c.basis.contains sp = true
@@ -308,17 +278,17 @@ theorem blade2canon_eq (c : Cfg) (h : Cfg.Adm c) (h14 : ∀ v ∈ c.vecs, v < 14
           obtain ⟨y, hy, ey⟩ := List.mem_map.mp h1
           exact Cfg.idx_inj c y x (hall y hy) (hlc x hx) ey ▸ hy
         show (if Py.truthy (pyName canon) = true then _ else _) = _
-        rw [if_pos (by rfl), swap_blades_pyName sp canon hsp (hb14 _ hmemb) hnd hmem]
+        rw [if_pos (by rfl), swap_blades_pyName sp canon hsp (hb16 _ hmemb) hnd hmem]
 
 
 /-- a permuted spelling of a name of the basis: the python returns that name and the parity-defining swap count -/
-theorem blade2canon_perm (c : Cfg) (h : Cfg.Adm c) (h14 : ∀ v ∈ c.vecs, v < 14) (sp n : List Nat)
+theorem blade2canon_perm (c : Cfg) (h : Cfg.Adm c) (h16 : ∀ v ∈ c.vecs, v < 16) (sp n : List Nat)
     (hn : n ∈ c.basis) (hp : sp.Perm n) :
     ∃ canon swaps, Src.blade2canon (algOf c) (pyName sp) = .ok (pyName canon, Int.ofNat swaps) ∧
       c.blade2canon sp = some (canon, swaps) ∧ canon ∈ c.basis ∧ canon.Perm sp := by
   obtain ⟨canon, swaps, h1, h2, h3, _⟩ := Cfg.blade2canon_sound c h sp n hn hp
-  have hsp : ∀ l ∈ sp, l < 14 := fun l hl => h14 l (h.names_letters n hn l (hp.mem_iff.mp hl))
+  have hsp : ∀ l ∈ sp, l < 16 := fun l hl => h16 l (h.names_letters n hn l (hp.mem_iff.mp hl))
   refine ⟨canon, swaps, ?_, h1, h2, h3⟩
-  rw [blade2canon_eq c h h14 sp hsp, h1]
+  rw [blade2canon_eq c h h16 sp hsp, h1]
 
 end Kingdon.SrcEq
